@@ -52,6 +52,8 @@ type Obligation struct {
 	PermuteMaps   bool
 	Validate      int
 	NoPanicCheck  bool // escaping panics are expected outcomes, not violations
+	Solver        string
+	NoOverride    map[string]bool // override targets disabled for this obligation
 	IdxIte        bool // read buffers at symbolic indices through ite chains instead of case-splitting the index
 	Fn            *ssa.Function
 }
@@ -89,6 +91,7 @@ type ObResult struct {
 	KnownHits     map[string]*Violation
 	Reached       map[string]bool
 	FeasQueries   int
+	CacheHits     int
 	BranchUnknown int
 	Stats         SolverStats
 	Wall          time.Duration
@@ -129,6 +132,7 @@ type Session struct {
 	touched     map[*Object]bool
 	touchedMaps map[*MapObj]bool
 	undo        []func()
+	modelPool   []*cachedModel
 }
 
 type globalBinding struct {
@@ -170,6 +174,17 @@ var skipInitPkgs = map[string]bool{
 	"time": true, "unicode": true, "sync": true, "internal/poll": true, "fmt": true,
 	"testing": true, "net": true, "crypto/rand": true, "math/rand": true, "internal/godebug": true,
 	"internal/cpu": true, "golang.org/x/sys/cpu": true,
+}
+
+func (s *Session) applyNoOverride(ob *Obligation) {
+	if len(ob.NoOverride) > 0 {
+		s.overrides = map[string]*ssa.Function{}
+		for t, f := range s.w.overrides {
+			if !ob.NoOverride[f.Name()] {
+				s.overrides[t] = f
+			}
+		}
+	}
 }
 
 func NewSession(w *World) *Session {
@@ -296,6 +311,16 @@ func obligationsOf(hf *HarnessFile, property string) []*Obligation {
 			PermuteMaps:   kv["permute"] == "true",
 			NoPanicCheck:  kv["nopanic"] == "off",
 			IdxIte:        kv["idx"] == "ite",
+			Solver:        kv["solver"],
+		}
+		if v := kv["nooverride"]; v != "" {
+			base.NoOverride = map[string]bool{}
+			for _, x := range strings.Split(v, ",") {
+				base.NoOverride[x] = true
+			}
+		}
+		if base.Solver == "" {
+			base.Solver = "z3-new"
 		}
 		if base.Tier == "" {
 			base.Tier = "quick"
@@ -441,6 +466,9 @@ func (s *Session) newInterp(ob *Obligation, r *ObResult, sol *Solver, decisions 
 		ob:        ob, r: r,
 	}
 	in.allocated = s.ts.ConstU(64, 0)
+	if os.Getenv("VERIF_NOMODELCACHE") == "" {
+		in.models = append(in.models, s.modelPool...)
+	}
 	return in
 }
 
@@ -496,7 +524,8 @@ func (w *World) runObligation(ob *Obligation, debug bool) *ObResult {
 		return r
 	}
 	s := NewSession(w)
-	sol, err := NewSolver(s.ts, "z3", ob.Mode, ob.TimeoutMs)
+	s.applyNoOverride(ob)
+	sol, err := NewSolver(s.ts, envDef("VERIF_SOLVER", ob.Solver), ob.Mode, ob.TimeoutMs)
 	if err != nil {
 		r.Unsupported = append(r.Unsupported, "solver: "+err.Error())
 		return r
@@ -508,6 +537,9 @@ func (w *World) runObligation(ob *Obligation, debug bool) *ObResult {
 		defer lf.Close()
 	}
 	var decisions []decision
+	if v := os.Getenv("VERIF_SECS"); v != "" {
+		ob.MaxSeconds = atoiDef(v, ob.MaxSeconds)
+	}
 	deadline := t0.Add(time.Duration(ob.MaxSeconds) * time.Second)
 	for {
 		in := s.newInterp(ob, r, sol, decisions)
@@ -521,7 +553,7 @@ func (w *World) runObligation(ob *Obligation, debug bool) *ObResult {
 			}
 		}
 		if debug {
-			fmt.Fprintf(os.Stderr, "[%s] path %d: %s %s (steps %d, decisions %d)\n", ob.ID(), r.Paths, end.kind, end.msg, in.steps, len(in.decisions))
+			fmt.Fprintf(os.Stderr, "[%s] path %d: %s %s (steps %d, decisions %d, queries %d, models %d)\n", ob.ID(), r.Paths, end.kind, end.msg, in.steps, len(in.decisions), sol.Stats.Queries, len(in.models))
 		}
 		switch end.kind {
 		case "done":
